@@ -24,6 +24,8 @@ type vMapProxy struct {
 	has   map[string]bool
 	calls int64
 	delay time.Duration
+	mode     map[string]string // reported-size behaviour per hash: "" = the stated size, "u", "m", "b"
+	maxProxy int64
 }
 
 func (p *vMapProxy) Put(ctx context.Context, kind cache.EntryKind, hash string, l int64, s int64, rc io.ReadCloser) {
@@ -39,9 +41,21 @@ func (p *vMapProxy) Contains(ctx context.Context, kind cache.EntryKind, hash str
 	}
 	p.mu.Lock()
 	h := p.has[hash]
+	m := p.mode[hash]
 	p.mu.Unlock()
 	atomic.AddInt64(&p.calls, 1)
-	return h, size
+	if !h {
+		return false, -1
+	}
+	switch m {
+	case "u": // a back end that cannot tell the size (v2 object stores)
+		return true, -1
+	case "m": // the object it holds has another size than the one stated in the request
+		return true, size + 1
+	case "b": // the object it holds is larger than max_proxy_blob_size
+		return true, p.maxProxy + 1
+	}
+	return true, size
 }
 
 func TestVerifFindMissing(t *testing.T) {
@@ -63,7 +77,10 @@ func TestVerifFindMissing(t *testing.T) {
 		var px *vMapProxy
 		opts := []Option{}
 		if withProxy {
-			px = &vMapProxy{has: map[string]bool{}}
+			px = &vMapProxy{has: map[string]bool{}, mode: map[string]string{}, maxProxy: maxProxy}
+			if rng.Pct(40) {
+				px.delay = time.Duration(1+rng.Intn(15)) * time.Millisecond // a back end that answers after the batch loop is done
+			}
 			opts = append(opts, WithProxyBackend(px), WithProxyMaxBlobSize(maxProxy))
 		}
 		c := vNewDisk(t, dir, 1<<30, opts...)
@@ -73,8 +90,10 @@ func TestVerifFindMissing(t *testing.T) {
 			dg    *pb.Digest
 			local int
 			prox  bool
+			pmode string
 		}
 		var items []item
+		stored := map[string]int64{} // hash -> logical size of the local entry
 		var want []string
 		anyMissing := false
 		// per-case profile: which kinds of digests occur at all (a list whose only non-present
@@ -88,9 +107,32 @@ func TestVerifFindMissing(t *testing.T) {
 		case 2:
 			profile = []int{0} // everything present
 		}
+		// one case in five ends in a stretch of digests that are all present locally (the last
+		// batch, or more, needs no back-end check while earlier ones are still being answered)
+		localTail := 0
+		if rng.Pct(20) && n > 21 {
+			localTail = 1 + rng.Intn(25)
+		}
 		for i := 0; i < n; i++ {
-			if len(items) > 0 && rng.Pct(10) { // duplicate of an earlier digest
-				it := items[rng.Intn(len(items))]
+			if i >= n-localTail {
+				data := rng.Bytes(1 + rng.Intn(300))
+				d := &pb.Digest{Hash: vHash(data), SizeBytes: int64(len(data))}
+				if err := vPut(c, cache.CAS, d.Hash, data); err != nil {
+					t.Errorf("put: %v", err)
+				}
+				stored[d.Hash] = d.SizeBytes
+				items = append(items, item{tok: fmt.Sprintf("h%d", i), dg: d, local: 1})
+				continue
+			}
+			if len(items) > 0 && rng.Pct(12) { // duplicate of an earlier digest, sometimes right after it
+				j := rng.Intn(len(items))
+				if rng.Pct(50) {
+					j = len(items) - 1
+				}
+				it := items[j]
+				if it.tok != "E" && rng.Pct(40) { // the same hash stating another size
+					it.dg = &pb.Digest{Hash: it.dg.Hash, SizeBytes: it.dg.SizeBytes + int64(1+rng.Intn(2))}
+				}
 				items = append(items, it)
 				continue
 			}
@@ -112,18 +154,29 @@ func TestVerifFindMissing(t *testing.T) {
 					t.Errorf("put: %v", err)
 				}
 				it.local = 1
+				stored[d.Hash] = d.SizeBytes
 			case 1: // present locally with another size
 				if err := vPut(c, cache.CAS, d.Hash, data); err != nil {
 					t.Errorf("put: %v", err)
 				}
 				it.dg = &pb.Digest{Hash: d.Hash, SizeBytes: d.SizeBytes + 1}
 				it.local = 2
+				stored[d.Hash] = d.SizeBytes
 			case 2: // only in the back end
 				it.prox = true
+				switch rng.Intn(8) {
+				case 0:
+					it.pmode = "u"
+				case 1:
+					it.pmode = "m"
+				case 2:
+					it.pmode = "b"
+				}
 			default: // absent everywhere
 			}
 			if it.prox && px != nil {
 				px.has[d.Hash] = true
+				px.mode[d.Hash] = it.pmode
 			}
 			items = append(items, it)
 		}
@@ -131,8 +184,22 @@ func TestVerifFindMissing(t *testing.T) {
 		var spec []string
 		for _, it := range items {
 			req = append(req, &pb.Digest{Hash: it.dg.Hash, SizeBytes: it.dg.SizeBytes})
-			spec = append(spec, fmt.Sprintf("%s:%d:%d:%d", it.tok, it.dg.SizeBytes, it.local, b2i(it.prox && px != nil)))
-			missing := !(it.tok == "E" && it.dg.SizeBytes == 0) && it.local != 1 && !(px != nil && it.prox && it.dg.SizeBytes <= maxProxy)
+			ptok := "0"
+			if it.prox && px != nil {
+				ptok = "1"
+				if it.pmode != "" {
+					ptok = it.pmode
+				}
+			}
+			st, isStored := stored[it.dg.Hash]
+			if !isStored {
+				st = -1
+			}
+			spec = append(spec, fmt.Sprintf("%s:%d:%d:%s", it.tok, it.dg.SizeBytes, st, ptok))
+			// the back end vouches for a digest only with a size that is within max_proxy_blob_size and
+			// does not contradict the stated one ("m": another size, "b": larger than the limit)
+			vouched := px != nil && it.prox && it.dg.SizeBytes <= maxProxy && it.pmode != "m" && it.pmode != "b"
+			missing := !(it.tok == "E" && it.dg.SizeBytes == 0) && !(isStored && st == it.dg.SizeBytes) && !vouched
 			if missing {
 				want = append(want, it.tok)
 				anyMissing = true
@@ -196,7 +263,7 @@ func TestVerifFindMissing(t *testing.T) {
 		}
 		_ = hookMu
 	})
-	rec.Set("rule", "request lists of length 0..300 crossing the batch size 20, partition into local / local-with-other-size / back-end-only / absent / empty digest / duplicates, with and without back end and max_proxy_blob_size, concurrent unrelated puts; plain and fail-fast call")
+	rec.Set("rule", "request lists of length 0..300 crossing the batch size 20, partition into local / local-with-other-size / back-end-only (reporting the stated size, no size, another size, a size above max_proxy_blob_size) / absent / empty digest / duplicates, with and without back end and max_proxy_blob_size, concurrent unrelated puts; plain and fail-fast call")
 }
 
 func b2i(b bool) int {
